@@ -17,7 +17,9 @@ Line-protocol handler for the Python-level models of `FixedPoint`, `UUID`, `Floa
   (compare: `FixedPoint(cls, bits).send(float(p / q), buf)` for `p / q` exactly representable as a
   float, `q > 0`; struct.error → `err:struct`, OverflowError → `err:other`)
 * `c02x.fixed.read <base> <bits> <hex>` → `ok <numerator> <denominator> <rest hex>` | `err:struct`
-  (compare: `Fraction(FixedPoint(cls, bits).read(...))` — equal as fractions, the model's is unreduced)
+  (compare: `Fraction(FixedPoint(cls, bits).read(...))`: the EXACT value, in lowest terms, of the Python
+  float the read returns — the correctly rounded binary64 quotient `raw / 2**bits`; the sign of a
+  negative zero (a negative raw value with `bits` > 1138 or so) is not visible in this format)
 Unparsable arguments → `bad-op`.
 -/
 namespace PyCraft.Drive
@@ -82,7 +84,9 @@ def c02exact (toks : List String) : Option String :=
   | ["c02x.fixed.read", base, bits, h] =>
     match intT? base, bits.toNat?, bytesOfHex h with
     | some b, some n, some bs =>
-      some (exc (fun (p : (Int × Int) × Bytes) => s!"{p.1.1} {p.1.2} {hexOut p.2}")
+      some (exc (fun (p : Nat × Bytes) =>
+          let f := f64FracReduced p.1
+          s!"{f.1} {f.2} {hexOut p.2}")
         ((FixedPointT.init b n).read noCC bs))
     | _, _, _ => some "bad-op"
   | op :: _ => if op.startsWith "c02x." then some "bad-op" else none
